@@ -166,7 +166,7 @@ func SpecBlindScalar(c elliptic.Curve, d Mathint, ctx string) Mathint {
 //
 //@ func hashBlind(c elliptic.Curve, sk *PrivateKey, context []byte) (k *big.Int, err error)
 //@ props C03 C08 C12 C16 C17
-//@ requires c != nil && sk != nil && sk.D != nil && BigVal(sk.D) >= 0 && BitLenOf(BigVal(sk.D)) <= 1<<32
+//@ requires c != nil && sk != nil && sk.D != nil && BigVal(sk.D) >= 0 && BitLenOf(BigVal(sk.D)) <= 1<<43
 //@ ensures (err == nil) == SpecCurveSupported(c)
 //@ ensures err == nil ==> k != nil && fresh(k) && BigVal(k) == SpecBlindScalar(c, BigVal(sk.D), string(context))
 //@ assigns none
@@ -175,7 +175,7 @@ func SpecBlindScalar(c elliptic.Curve, d Mathint, ctx string) Mathint {
 
 //@ func BlindPublicKeyWithContext(c elliptic.Curve, pk *PublicKey, bk *PrivateKey, context []byte) (res *PublicKey, err error)
 //@ props C03 C06 C07 C08 C12 C16 C17
-//@ requires c != nil && pk != nil && pk.X != nil && pk.Y != nil && ECOnCurve(c, BigVal(pk.X), BigVal(pk.Y)) && bk != nil && bk.D != nil && BigVal(bk.D) >= 0 && BitLenOf(BigVal(bk.D)) <= 1<<32
+//@ requires c != nil && pk != nil && pk.X != nil && pk.Y != nil && ECOnCurve(c, BigVal(pk.X), BigVal(pk.Y)) && bk != nil && bk.D != nil && BigVal(bk.D) >= 0 && BitLenOf(BigVal(bk.D)) <= 1<<43
 //@ let k = SpecBlindScalar(c, BigVal(bk.D), string(context))
 //@ ensures (err == nil) == SpecCurveSupported(c)
 //@ ensures err == nil ==> res != nil && fresh(res) && res.Curve == c && res.X != nil && res.Y != nil && res.X != res.Y
@@ -186,7 +186,7 @@ func SpecBlindScalar(c elliptic.Curve, d Mathint, ctx string) Mathint {
 
 //@ func UnblindPublicKeyWithContext(c elliptic.Curve, pk *PublicKey, bk *PrivateKey, context []byte) (res *PublicKey, err error)
 //@ props C03 C08 C12 C16 C17
-//@ requires c != nil && pk != nil && pk.X != nil && pk.Y != nil && ECOnCurve(c, BigVal(pk.X), BigVal(pk.Y)) && bk != nil && bk.D != nil && BigVal(bk.D) >= 0 && BitLenOf(BigVal(bk.D)) <= 1<<32
+//@ requires c != nil && pk != nil && pk.X != nil && pk.Y != nil && ECOnCurve(c, BigVal(pk.X), BigVal(pk.Y)) && bk != nil && bk.D != nil && BigVal(bk.D) >= 0 && BitLenOf(BigVal(bk.D)) <= 1<<43
 //@ requires Invertible(SpecBlindScalar(c, BigVal(bk.D), string(context)), ECOrder(c))
 //@ let k = ModInv(SpecBlindScalar(c, BigVal(bk.D), string(context)), ECOrder(c))
 //@ ensures (err == nil) == SpecCurveSupported(c)
